@@ -6,12 +6,18 @@ R-C09a  x64 flag: every jax.config.update("jax_enable_x64", …) outside a `fina
 R-C09b  no default-float64 numpy constant reaches a non-downcasting constant sink (ir.tensor(…),
         const_value=…, tensor_attr(…), bind_const_for_var(…)): numpy_dtype_to_ir_with_float_policy keeps
         float64 as DOUBLE, so such a constant puts a DOUBLE tensor into a single-precision export
+R-C09c  in every function that scopes the flag with `with _temporary_x64(…)` / `with _force_jax_x64(…)`,
+        no x64-sensitive JAX call (jax.dtypes.canonicalize_dtype, any jnp.* / jax.random.* call,
+        jax.eval_shape, jax.make_jaxpr, jax.device_put) is executed outside that block — neither in
+        the function's own statements nor in the package helpers those statements call: such a call
+        resolves dtypes under the *process* flag, not the requested one
 """
 from __future__ import annotations
 
 import ast
 from typing import List, Optional, Set, Tuple
 
+from ..callgraph import get_callgraph
 from ..cfg import cfg_of
 from ..flow import defuse, names_in
 from ..guards import src
@@ -195,6 +201,9 @@ def run(res: Results, idx: Index, tier: str) -> None:
                     res.violation("R-C09a", site, key, "jax_enable_x64 is changed and no finally restores it", fi.qualname)
     res.analysed["x64_update_sites"] = n_upd
 
+    res.rule("R-C09c", "no x64-sensitive JAX call runs outside the scoped x64 flag in functions that scope it", floor=20)
+    rule_c(res, idx)
+
     # ---------------- R-C09b
     n_sinks = 0
     for m in idx.product_modules():
@@ -246,6 +255,88 @@ def run(res: Results, idx: Index, tier: str) -> None:
         if isinstance(n, ast.Call) and (call_name(n) or "").endswith("bind_const_for_var"):
             kinds.append(classify(cm, f, n.args[1])[0])
     res.control("R-C09b", "np.asarray(0.5) is DEFAULT64, np.asarray(0.5, dtype=np.float32) is EXPLICIT", kinds == ["DEFAULT64", "EXPLICIT"], str(kinds))
+
+
+X64_SCOPES = {"_temporary_x64", "_force_jax_x64"}
+X64_SENSITIVE_LAST = {"canonicalize_dtype", "canonicalize_value", "eval_shape", "make_jaxpr", "device_put", "result_type", "promote_types"}
+
+
+def _x64_sensitive(m: Module, c: ast.Call) -> Optional[str]:
+    cn = call_name(c) or ""
+    if not cn:
+        return None
+    parts = cn.split(".")
+    head = m.imports.get(parts[0], parts[0])
+    full = ".".join([head] + parts[1:])
+    if full.startswith("jax.numpy.") or full.startswith("jax.random."):
+        return full
+    if full.startswith("jax.") and parts[-1] in X64_SENSITIVE_LAST:
+        return full
+    return None
+
+
+def rule_c(res: Results, idx: Index) -> None:
+    cg = get_callgraph(idx)
+    n_scopes = 0
+    n_calls = 0
+    for m in idx.product_modules():
+        if ".sandbox" in m.name:
+            continue
+        for fi in list(m.funcs.values()):
+            withs = [w for w in walk_no_nested(fi.node) if isinstance(w, ast.With) and any(isinstance(it.context_expr, ast.Call) and (call_name(it.context_expr) or "").split(".")[-1] in X64_SCOPES for it in w.items)]
+            if not withs:
+                continue
+            n_scopes += len(withs)
+            inside: Set[int] = set()
+            for w in withs:
+                for st in w.body:
+                    for x in ast.walk(st):
+                        inside.add(id(x))
+            # the function's own calls outside the scope (nested defs are only *defined* here: they are judged where called)
+            outside_calls = [c for c in walk_no_nested(fi.node) if isinstance(c, ast.Call) and id(c) not in inside]
+            seen_funcs = {}
+            for c in outside_calls:
+                n_calls += 1
+                why = _x64_sensitive(m, c)
+                key = f"{m.rel}::{fi.qualname}::outside-x64-scope::{call_name(c)}"
+                if why:
+                    res.violation("R-C09c", f"{m.rel}:{c.lineno}", key, f"`{src(c, 60)}` runs before/after `with {sorted(X64_SCOPES)[0]}…` and resolves dtypes under the process-wide x64 flag instead of enable_double_precision", fi.qualname)
+                    continue
+                callee = idx.resolve_func(m, call_name(c) or "", cls=fi.cls, scope=fi)
+                if callee is None:
+                    continue
+                for g in cg.reachable_from(callee, depth=3):
+                    if id(g.node) in seen_funcs or g.node is fi.node:
+                        continue
+                    seen_funcs[id(g.node)] = g
+                    gm = g.module
+                    bad = None
+                    for x in walk_no_nested(g.node):
+                        if isinstance(x, ast.Call):
+                            n_calls += 1
+                            why = _x64_sensitive(gm, x)
+                            if why:
+                                bad = (x, why)
+                                break
+                    k2 = f"{m.rel}::{fi.qualname}::outside-x64-scope::{call_name(c)}->{g.qualname}"
+                    if bad:
+                        res.violation("R-C09c", f"{gm.rel}:{bad[0].lineno}", k2, f"`{src(bad[0], 60)}` ({bad[1]}) is reached from `{src(c, 40)}` at {m.rel}:{c.lineno}, outside the scoped x64 flag of {fi.qualname}: its dtype follows the process flag, not enable_double_precision", g.qualname)
+                    else:
+                        res.ok("R-C09c", f"{gm.rel}:{g.node.lineno}", k2, "no x64-sensitive JAX call", g.qualname)
+    res.analysed["x64_scopes"] = n_scopes
+    res.analysed["calls_outside_x64_scope"] = n_calls
+    import textwrap
+    from ..index import Module as Mod
+    cm = Mod("<control>", "<control>", "control_c09c", textwrap.dedent("""
+        import jax
+        import jax.numpy as jnp
+        def f(x):
+            a = jax.dtypes.canonicalize_dtype(x.dtype)
+            b = jnp.asarray(x)
+            c = jax.ShapeDtypeStruct((1,), x.dtype)
+    """))
+    got = [bool(_x64_sensitive(cm, c)) for c in ast.walk(cm.tree) if isinstance(c, ast.Call)]
+    res.control("R-C09c", "canonicalize_dtype and jnp.asarray are x64-sensitive, jax.ShapeDtypeStruct is not", got == [True, True, False], str(got))
 
 
 def _inside(n: ast.AST, block: List[ast.stmt]) -> bool:
